@@ -218,7 +218,7 @@ fn wal_num(name: &str) -> Option<u64> {
 /// One structural damage operation (lengths / file set may change).
 pub fn structural_damage(img: &mut Image, rng: &mut Rng) -> Option<Value> {
     let names: Vec<String> = img.files.keys().filter(|n| wal_num(n).is_some()).cloned().collect();
-    let kind = rng.below(16);
+    let kind = rng.below(17);
     if names.is_empty() && !matches!(kind, 7 | 8 | 9 | 10 | 11) {
         return None;
     }
@@ -466,6 +466,26 @@ pub fn structural_damage(img: &mut Image, rng: &mut Rng) -> Option<Value> {
                 resurrected = Some(wal_name(old));
             }
             Some(json!({"kind": "overlong-last-file", "file": target, "was_full": !full.is_empty(), "blocks_appended_from": {"file": donor, "blocks": appended}, "resurrected_older_file": resurrected}))
+        }
+        16 => {
+            // a long unbroken run of files too short to hold a block, right behind a file
+            // (preferably one that recovery reads to its end); the files behind move up
+            let mut nums: Vec<u64> = names.iter().filter_map(|n| wal_num(n)).collect();
+            nums.sort_unstable();
+            let k = if nums.len() >= 2 { rng.usize(0, nums.len() - 2) } else { 0 };
+            let run = rng.usize(200, 1500) as u64;
+            if nums[nums.len() - 1] > u64::MAX / 2 {
+                return None;
+            }
+            for n in nums[k + 1..].iter().rev() {
+                let d = img.files.remove(&wal_name(*n))?;
+                img.files.insert(wal_name(*n + run), d);
+            }
+            let len = *rng.pick(&[0usize, 1, 1, 100, BLOCK - 1]);
+            for j in 1..=run {
+                img.files.insert(wal_name(nums[k] + j), vec![0u8; len]);
+            }
+            Some(json!({"kind": "long-run-of-short-files", "after": wal_name(nums[k]), "files_in_run": run, "bytes_each": len, "files_moved_up": nums.len() - 1 - k}))
         }
         _ => {
             let n = rng.pick(&names).clone();
